@@ -9,16 +9,35 @@ A *schedule* is the list of events of the Lean model (`Cache.Event`):
   ("ex", i)              the next op of run i raises instead (exception; finally/with still run)
   ("ki", i)              run i is killed (nothing runs any more, unflushed data are lost)
 The same schedule is executed by the Lean driver; both sides print the same canonical state.
+
+Robustness contract (strengthening after the seeded changes C24-1/C24-3): nothing the code under test does may
+surface as a Python exception of the harness.  A run that raises is the observation ``crashed`` (+ exception type),
+a run that does not come back to the controller within the step timeout is the observation ``hang`` (the thread is
+abandoned, its later wrapper calls are no-ops), an entry on which ``pickle.load`` does not terminate is found out in
+a child process (``Prober``) BEFORE the run thread enters the C unpickler (a spinning C call can neither be interrupted
+nor does it release the GIL reliably) and is the observation ``hang`` at op ``load``.  The schedule-level oracle
+(``cache_common.Judge``) judges these observations; the schedule is the replay.
+
+The rig does not make temporary names unique: ``uuid.uuid4`` is wrapped only to gate it and to remember which run drew
+which value (it returns what the real ``uuid4`` returns, a distinct value per call); ``os.getpid``,
+``threading.get_ident``, ``time.*`` … are untouched, so a tmp name that does not contain the uuid is shared between
+the runs of one process exactly as it would be between threads of a real process.
 """
 from __future__ import annotations
 
+import atexit
 import hashlib
+import json
 import os
 import pathlib
 import pickle
+import select
 import shutil
+import subprocess
+import sys
 import tempfile
 import threading
+import time
 import uuid
 from typing import Any, Callable, Dict, List, Optional, Sequence, Tuple
 
@@ -36,21 +55,173 @@ class Killed(BaseException):
     pass
 
 
+class Hung(BaseException):
+    """Raised inside a run thread instead of entering a call that is known not to terminate."""
+
+
+def _env_float(name: str, default: float) -> float:
+    try:
+        return float(os.environ.get(name, "") or default)
+    except ValueError:
+        return default
+
+
+STEP_TIMEOUT = _env_float("VERIF_CACHE_STEP_TIMEOUT", 60.0)  # one op of one run (the compute op parses the model)
+PROBE_TIMEOUT = _env_float("VERIF_CACHE_PROBE_TIMEOUT", 20.0)  # unpickling one cache file in the child process
+HANGS = {"n": 0}  # hang observations of this process (the time-outs shrink once hangs are known to happen)
+
+
+def step_timeout() -> float:
+    return STEP_TIMEOUT if HANGS["n"] < 2 else min(STEP_TIMEOUT, 10.0)
+
+
+# -------------------------------------------------------------------------- fingerprint of a load_model result
+
+
+def fingerprint(res: Any) -> Any:
+    """What two results of load_model are compared by (error text | source text + types, properties, literals)."""
+    if res[1] is not None:
+        return res[1]
+    stbl, atok = res[0]
+    out: List[Any] = [atok.text]
+    for t in stbl.our_types:
+        out.append([type(t).__name__, str(t.name), [str(p.name) for p in getattr(t, "properties", [])], [str(x.name) for x in getattr(t, "literals", [])]])
+    return out
+
+
+def fp_digest(fp: Any) -> str:
+    return hashlib.sha256(json.dumps(fp, ensure_ascii=True, default=str).encode()).hexdigest()[:24]
+
+
+# -------------------------------------------------------------------------- unpickling under a time limit
+
+
+def _probe_main() -> None:  # runs in the child process (no wrappers installed there)
+    for line in sys.stdin:
+        path = line.rstrip("\n")
+        if not path:
+            continue
+        try:
+            with open(path, "rb") as f:
+                obj = pickle.load(f)
+            text = obj.atok.text
+            ans = {"st": "ok", "text": hashlib.sha256(text.encode("utf-8", "surrogatepass")).hexdigest(),
+                   "fp": fp_digest(fingerprint(((obj.symbol_table, obj.atok), None)))}
+        except BaseException as e:  # noqa
+            ans = {"st": "err:" + type(e).__name__}
+        sys.stdout.write(json.dumps(ans) + "\n")
+        sys.stdout.flush()
+
+
+class Prober:
+    """(status, sha256 of the unpickled source text, digest of the fingerprint) of the bytes of a cache file; status is
+    ``ok`` | ``err:<Type>`` | ``hang``.  Decided by really unpickling in a child process that imports the repo under test;
+    memoised by content."""
+
+    def __init__(self) -> None:
+        self.proc: Optional[subprocess.Popen] = None  # type: ignore
+        self.memo: Dict[bytes, Tuple[str, str, str]] = {}
+        self.lock = threading.Lock()
+        self.dir: Optional[str] = None
+        self.calls = 0
+
+    def _start(self) -> None:
+        from harness.core import REPO, VERIF
+
+        code = f"import sys; sys.path[:0] = [{str(REPO)!r}, {str(VERIF)!r}]; from harness.cache_rig import _probe_main; _probe_main()"
+        self.proc = subprocess.Popen([sys.executable, "-B", "-c", code], stdin=subprocess.PIPE, stdout=subprocess.PIPE, stderr=subprocess.DEVNULL)
+        if self.dir is None:
+            self.dir = tempfile.mkdtemp(prefix="aasverif-probe-", dir=os.environ.get("TMPDIR", "/tmp"))
+
+    def stop(self) -> None:
+        with self.lock:
+            self._kill()
+            if self.dir is not None:
+                shutil.rmtree(self.dir, ignore_errors=True)
+                self.dir = None
+
+    def _kill(self) -> None:
+        if self.proc is not None:
+            try:
+                self.proc.kill()
+                self.proc.wait(timeout=10)
+            except BaseException:  # noqa
+                pass
+            self.proc = None
+
+    def probe(self, data: bytes) -> Tuple[str, str, str]:
+        key = hashlib.blake2b(data, digest_size=16).digest()
+        with self.lock:
+            if key in self.memo:
+                return self.memo[key]
+            res = self._ask(data)
+            self.memo[key] = res
+            return res
+
+    def _ask(self, data: bytes) -> Tuple[str, str, str]:
+        self.calls += 1
+        for attempt in (0, 1):
+            if self.proc is None or self.proc.poll() is not None:
+                self._start()
+            assert self.proc is not None and self.dir is not None
+            path = os.path.join(self.dir, "entry.bin")
+            fd = os.open(path, os.O_WRONLY | os.O_CREAT | os.O_TRUNC, 0o600)
+            try:
+                view = memoryview(data)
+                while len(view):
+                    view = view[os.write(fd, view[: 1 << 20]) :]
+            finally:
+                os.close(fd)
+            try:
+                self.proc.stdin.write((path + "\n").encode())  # type: ignore
+                self.proc.stdin.flush()  # type: ignore
+                fdo = self.proc.stdout.fileno()  # type: ignore
+                buf = b""
+                deadline = time.time() + PROBE_TIMEOUT
+                while not buf.endswith(b"\n"):
+                    left = deadline - time.time()
+                    if left <= 0:
+                        self._kill()
+                        return ("hang", "", "")
+                    r, _, _ = select.select([fdo], [], [], left)
+                    if r:
+                        chunk = os.read(fdo, 65536)
+                        if not chunk:
+                            raise OSError("probe child closed its pipe")
+                        buf += chunk
+                ans = json.loads(buf.decode())
+                return (ans["st"], ans.get("text", ""), ans.get("fp", ""))
+            except (OSError, ValueError):
+                # the child died (e.g. the unpickler ran out of memory or segfaulted on garbage): once more, then give up
+                self._kill()
+                if attempt == 1:
+                    return ("err:ProbeChildDied", "", "")
+        return ("err:ProbeChildDied", "", "")
+
+
+PROBER = Prober()
+atexit.register(PROBER.stop)
+
+
 class _Proc:
     def __init__(self, world: "World", idx: int, text_id: int, flag: bool) -> None:
         self.world = world
         self.idx = idx
         self.text_id = text_id
         self.flag = flag
+        self.lock = threading.Lock()
         self.go = threading.Semaphore(0)
         self.arrived = threading.Semaphore(0)
         self.cmd = "go"
         self.at: Optional[str] = None
         self.finished = False
         self.dead = False
+        self.hung = False
+        self.hang_at: Optional[str] = None
         self.raised = False
         self.outcome: Optional[str] = None
         self.exc_type: Optional[str] = None
+        self.exc_msg = ""
         self.uuids: List[str] = []
         self.result: Any = None
         self.thread: Optional[threading.Thread] = None
@@ -90,6 +261,36 @@ class _WProxy:
             self.raw.close()
             self.closed = True
 
+    # the rest of the file API, so that a harmless rewrite of the code under test (fsync, tell, name …) is not a crash
+    def fileno(self) -> int:
+        if not self.pr.dead:
+            self.flush()
+        return self.raw.fileno()
+
+    def tell(self) -> int:
+        return self.raw.tell() + len(self.buf)
+
+    def writable(self) -> bool:
+        return True
+
+    def readable(self) -> bool:
+        return False
+
+    def seekable(self) -> bool:
+        return False
+
+    @property
+    def name(self) -> Any:
+        return self.raw.name
+
+    @property
+    def mode(self) -> str:
+        return "wb"
+
+    def writelines(self, lines: Any) -> None:
+        for ln in lines:
+            self.write(ln)
+
     def __enter__(self) -> "_WProxy":
         return self
 
@@ -110,6 +311,15 @@ class _WProxy:
             self.close()
 
 
+def kind_of_name(name: str) -> str:
+    """Kind of a file of the cache directory by its name."""
+    if name.endswith(".pickle") and name.startswith("model-"):
+        return "final"
+    if name.endswith(".tmp"):
+        return "tmp"
+    return "other"
+
+
 class World:
     """One scenario: its own temp directory, model files and runs."""
 
@@ -125,6 +335,7 @@ class World:
         self.procs: List[_Proc] = []
         self.log: List[str] = []
         self.trace: List[str] = []
+        self.trace_dels = 0  # entries taken back (a dump that was killed in the middle never completed)
         self.cache_dirs: List[pathlib.Path] = []
 
     # ---------------------------------------------------------------- canonical names
@@ -183,6 +394,7 @@ class World:
                 for k in range(len(self.trace) - 1, -1, -1):
                     if self.trace[k] == f"{pr.idx}:dump":
                         del self.trace[k]
+                        self.trace_dels += 1
                         break
             raise Killed()
         if cmd == "exc":
@@ -206,7 +418,7 @@ class World:
         self.gate(pr, name)
         try:
             r = real()
-        except Killed:
+        except (Killed, Hung):
             raise
         except BaseException:
             self._mark_raised(pr, name)
@@ -227,23 +439,38 @@ class World:
         from aas_core_codegen import run
 
         _TLS.proc = pr
+        outcome: Optional[str] = None
+        result: Any = None
+        exc: Tuple[Optional[str], str] = (None, "")
+        hung_here = False
         try:
             res = run.load_model(self.model_path(pr.text_id), cache_model=pr.flag)
             if res[1] is None:
                 self.gate(pr, "return")
                 text = res[0][1].text
-                pr.outcome = f"ok:{self.text_to_id.get(text, '?')}"
+                outcome = f"ok:{self.text_to_id.get(text, '?')}"
             else:
-                pr.outcome = f"err:{pr.text_id}"
-            pr.result = res
+                outcome = f"err:{pr.text_id}"
+            result = res
         except Killed:
-            pr.outcome = "killed"
+            outcome = "killed"
+        except Hung:
+            outcome = "hang"
+            hung_here = True
         except BaseException as e:  # noqa
-            pr.outcome = "crashed"
-            pr.exc_type = type(e).__name__
+            outcome = "crashed"
+            exc = (type(e).__name__, str(e)[:200])
         finally:
             _TLS.proc = None
-            pr.finished = True
+            with pr.lock:
+                if not pr.hung:  # otherwise the controller gave this run up already: what it does now is not observed
+                    pr.outcome, pr.result = outcome, result
+                    pr.exc_type, pr.exc_msg = exc
+                    if hung_here:
+                        pr.hung = True
+                        pr.hang_at = pr.at
+                        HANGS["n"] += 1
+                    pr.finished = True
             pr.arrived.release()
 
     def spawn(self, text_id: int, flag: bool) -> None:
@@ -255,8 +482,19 @@ class World:
         self._wait(pr)
 
     def _wait(self, pr: _Proc) -> None:
-        if not pr.arrived.acquire(timeout=60):
-            raise RuntimeError(f"run {pr.idx} did not come back to the controller (at {pr.at})")
+        if pr.arrived.acquire(timeout=step_timeout()):
+            return
+        # The run did not come back: an OBSERVATION (it blocks on something another run did, or spins), never an error of
+        # the harness.  The thread is abandoned (daemon); whatever it does later through the wrappers is a no-op.
+        with pr.lock:
+            if pr.finished:  # it finished in the very moment of the time-out
+                return
+            pr.hung = True
+            pr.hang_at = pr.at
+            pr.dead = True
+            pr.outcome = "hang"
+            pr.finished = True
+            HANGS["n"] += 1
 
     def _release(self, pr: _Proc, cmd: str) -> None:
         pr.cmd = cmd
@@ -294,17 +532,30 @@ class World:
             while not pr.finished and guard < 100:
                 self._release(pr, "kill")
                 guard += 1
+            if not pr.finished:
+                # swallows the kill again and again (a `while True: try … except BaseException`): abandon it
+                pr.dead = True
+                pr.finished = True
+                pr.outcome = pr.outcome or "hang"
 
     # ---------------------------------------------------------------- observation
-    def load_file(self, p: pathlib.Path) -> Tuple[bool, str]:
-        """(complete?, src id) of a cache file, judged by really unpickling it."""
+    def probe_file(self, p: pathlib.Path) -> Tuple[str, str, str]:
+        """(status, src id, fingerprint digest) of a cache file, judged by really unpickling it (in the probe child:
+        the content may come from a changed tree and need not be something pickle.load terminates on)."""
         try:
             with open(p, "rb") as f:
-                obj = _ORIG["pickle.load"](f)
-            text = obj.atok.text
-            return True, str(self.text_to_id.get(text, "?"))
-        except BaseException:  # noqa
-            return False, "-"
+                data = f.read()
+        except OSError as e:
+            return ("err:" + type(e).__name__, "-", "")
+        st, text_sha, fp = PROBER.probe(data)
+        if st != "ok":
+            return (st, "-", "")
+        return (st, str(self.sha_to_id.get(text_sha, "?")), fp)
+
+    def load_file(self, p: pathlib.Path) -> Tuple[bool, str]:
+        """(complete?, src id) of a cache file."""
+        st, src, _ = self.probe_file(p)
+        return (st == "ok", src)
 
     def files(self) -> List[str]:
         out = []
@@ -318,7 +569,9 @@ class World:
     def state(self) -> Dict[str, Any]:
         procs = []
         for pr in self.procs:
-            if pr.finished:
+            if pr.hung:
+                procs.append(f"hang@{pr.hang_at}")
+            elif pr.finished:
                 procs.append(pr.outcome)
             else:
                 procs.append(("unw@" if pr.raised else "run@") + str(pr.at))
@@ -418,14 +671,15 @@ def _path_wrapper(name: str) -> Callable[..., Any]:
         if name == "mkdir":
             return world.op(pr, "mkdir", real, ["mkdir"])
         if name in ("rename", "replace"):
-            c2 = world.canon(a[0])
-            k2 = world.kind(a[0])
+            tgt = a[0] if a else kw.get("target", self)
+            c2 = world.canon(tgt)
+            k2 = world.kind(tgt)
             # the tmp name may only be attributable after the rename; canonicalise before
             return world.op(pr, f"rename.{k}.{k2}", real, [f"write:{c}", f"write:{c2}"])
         if name == "unlink":
             return world.op(pr, f"unlink.{k}", real, [f"write:{c}"])
         if name == "open":
-            mode = a[0] if a else kw.get("mode", "r")
+            mode = str(a[0] if a else kw.get("mode", "r"))
             if "w" in mode or "a" in mode or "+" in mode or "x" in mode:
 
                 def real_w() -> Any:
@@ -450,6 +704,16 @@ def _w_pickle_load(f: Any, *a: Any, **kw: Any) -> Any:
     def real() -> Any:
         pr.depth += 1
         try:
+            # what is about to be unpickled may be anything if another run damaged the entry: find out in the probe child
+            # whether pickle.load terminates on it before entering the C unpickler in this thread
+            try:
+                pos = f.tell()
+                data = f.read()
+                f.seek(pos)
+            except BaseException:  # noqa  (not a real file: nothing to probe)
+                data = None
+            if data is not None and PROBER.probe(data)[0] == "hang":
+                raise Hung("pickle.load does not terminate on this entry")
             return _ORIG["pickle.load"](f, *a, **kw)
         finally:
             pr.depth -= 1
@@ -558,6 +822,8 @@ def run_real(root: pathlib.Path, texts: Dict[int, str], sched: Sequence[Event], 
             world.event(ev, mid_dump=mid_dump)
             if observer is not None:
                 observer(world, k)
+            if any(pr.hung for pr in world.procs):
+                break  # observed and judged; the rest of the schedule would only wait for more time-outs
         st = world.state()
     finally:
         world.finish_all()
